@@ -610,6 +610,51 @@ func (g *gen) genRepeated() *caseIn {
 	return in
 }
 
+// genExtreme: legal but unusual identifiers — negative ids (editor placeholders), 0, ids at and
+// beyond 2^40, MaxInt64; versions at and beyond 2^16 and up to 2^31-1.  Every modified or deleted
+// element has a history with a predecessor (and no data source error), so the unchanged code
+// always produces a diff here: nothing in these cases depends on how an id is packed into an
+// error value.
+var extremeIDs = []int64{-1 << 62, -1099511627776, -65536, -5, -1, 0, 1, 7, 65535, 65536, 1 << 40, 1<<40 + 3, 1 << 44, 1<<62 + 1, 1<<63 - 1}
+var extremeVersions = []int{1, 2, 255, 256, 65535, 65536, 65537, 65538, 131073, 1<<31 - 1}
+
+func (g *gen) genExtreme() *caseIn {
+	in := &caseIn{Ign: g.rng.Intn(3), NFT: g.rng.Intn(3) == 0}
+	used := map[[2]int64]bool{}
+	n := 1 + g.rng.Intn(4)
+	for x := 0; x < n; x++ {
+		k := g.rng.Intn(3)
+		id := extremeIDs[g.rng.Intn(len(extremeIDs))]
+		if used[[2]int64{int64(k), id}] {
+			continue
+		}
+		used[[2]int64{int64(k), id}] = true
+		v := extremeVersions[g.rng.Intn(len(extremeVersions))]
+		if g.rng.Intn(3) == 0 {
+			v = 1 + g.rng.Intn(5)
+		}
+		si := g.rng.Intn(3)
+		if in.Sections[si] == nil {
+			in.Sections[si] = &sectionT{}
+		}
+		in.Sections[si][k] = append(in.Sections[si][k], el{k, id, v, g.rng.Intn(2) == 0, g.nextPay()})
+		if si == 0 && g.rng.Intn(2) == 0 {
+			continue // created elements need no history
+		}
+		h := dsEntry{Kind: k, ID: id}
+		cands := []int{0, 1, v - 2, v - 1, 65535, 65536, 65537, v, v + 1}
+		for _, hv := range cands {
+			if hv >= 0 && hv != v-1 && g.rng.Intn(2) == 0 {
+				h.Hist = append(h.Hist, el{k, id, hv, g.rng.Intn(4) != 0, g.nextPay()})
+			}
+		}
+		h.Hist = append(h.Hist, el{k, id, v - 1, true, g.nextPay()}) // the predecessor (v >= 1)
+		g.rng.Shuffle(len(h.Hist), func(i, j int) { h.Hist[i], h.Hist[j] = h.Hist[j], h.Hist[i] })
+		in.DS = append(in.DS, h)
+	}
+	return in
+}
+
 func interleaveByID(rng *rand.Rand, l []el) []el {
 	by := map[int64][]el{}
 	var keys []int64
@@ -638,11 +683,14 @@ func main() {
 	rng := wire.Rng(a.Seed)
 	w := wire.NewWriter("C13", a.Seed, a.Tier)
 	g := &gen{rng: rng, w: w, pay: 1000}
-	w.Rule = "osmChange with 0-4 nodes/ways/relations per create/modify/delete section (sections sometimes nil), histories per element: absent, nil slice, empty, other data-source error, 1-6 entries unsorted/ascending/descending with gaps, version 0, later versions, duplicates of the new version and of each other, nothing below; option none / IgnoreMissingChildren(false) / (true); every object carries a distinct payload (changeset id). Single-element changes exercise the predecessor search alone; large cases put 16-40 elements of one kind in a section and give the data source uneven per-id latency (first elements slowest: order must not depend on it); repeated cases let the same element occur 2-4 times across/within modify and delete with increasing versions (each occurrence has its own predecessor). distinct = distinct token streams; trivial = empty change. History versions are >= 0 (the domain of the property; OSM versions start at 1)."
+	w.Rule = "osmChange with 0-4 nodes/ways/relations per create/modify/delete section (sections sometimes nil), histories per element: absent, nil slice, empty, other data-source error, 1-6 entries unsorted/ascending/descending with gaps, version 0, later versions, duplicates of the new version and of each other, nothing below; option none / IgnoreMissingChildren(false) / (true); every object carries a distinct payload (changeset id). Single-element changes exercise the predecessor search alone; large cases put 16-40 elements of one kind in a section and give the data source uneven per-id latency (first elements slowest: order must not depend on it); repeated cases let the same element occur 2-4 times across/within modify and delete with increasing versions (each occurrence has its own predecessor); extreme cases use ids from {negative, 0, 2^16, 2^40, 2^44, 2^62, MaxInt64} and versions from {.., 65535, 65536, 65537, 2^31-1} with a predecessor always present. distinct = distinct token streams; trivial = empty change. History versions are >= 0 (the domain of the property; OSM versions start at 1)."
 	nChange, nSingle, nLarge, nRepeat := 380, 340, 40, 160
+	nExtreme := 150
 	if a.Tier == "thorough" {
 		nChange, nSingle, nLarge, nRepeat = 8000, 8000, 400, 4000
+		nExtreme = 3000
 	}
+	nExtreme = int(float64(nExtreme) * a.Scale)
 	nChange = int(float64(nChange) * a.Scale)
 	nSingle = int(float64(nSingle) * a.Scale)
 	nLarge = int(float64(nLarge) * a.Scale)
@@ -692,6 +740,15 @@ func main() {
 		in = &caseIn{}
 		in.Sections[1] = &sectionT{nil, {{1, 5, 2, true, g.nextPay()}, {1, 5, 6, true, g.nextPay()}}, nil}
 		in.DS = []dsEntry{{Kind: 1, ID: 5, Hist: []el{{1, 5, 1, true, g.nextPay()}, {1, 5, 5, true, g.nextPay()}}}}
+		c = mkCase(in, nil)
+		c.Class = "corpus"
+		w.Add(c)
+		// a negative id and an id beyond 2^40 are ordinary keys; version 65537 has predecessor 65536
+		in = &caseIn{}
+		in.Sections[1] = &sectionT{{{0, -5, 2, true, g.nextPay()}}, {{1, 7, 65537, true, g.nextPay()}}, {{2, 1<<40 + 3, 3, true, g.nextPay()}}}
+		in.DS = []dsEntry{{Kind: 0, ID: -5, Hist: []el{{0, -5, 1, true, g.nextPay()}}},
+			{Kind: 1, ID: 7, Hist: []el{{1, 7, 1, true, g.nextPay()}, {1, 7, 65536, true, g.nextPay()}}},
+			{Kind: 2, ID: 1<<40 + 3, Hist: []el{{2, 1<<40 + 3, 2, true, g.nextPay()}}}}
 		c = mkCase(in, nil)
 		c.Class = "corpus"
 		w.Add(c)
@@ -748,6 +805,11 @@ func main() {
 	for i := 0; i < nRepeat; i++ {
 		c := mkCase(g.genRepeated(), nil)
 		c.Class = "repeated-element"
+		w.Add(c)
+	}
+	for i := 0; i < nExtreme; i++ {
+		c := mkCase(g.genExtreme(), nil)
+		c.Class = "extreme-ids-and-versions"
 		w.Add(c)
 	}
 
